@@ -472,25 +472,28 @@ func readStreamingPacket(conn net.Conn, buf []byte) (int, error) {
 	var bytesRead, n int
 	var err error
 
+	// A Read may return its last bytes together with an error (io.Reader): count them first.
 	for bytesRead < streamingPacketHeaderLen {
-		if n, err = conn.Read(header[bytesRead:streamingPacketHeaderLen]); err != nil {
+		n, err = conn.Read(header[bytesRead:streamingPacketHeaderLen])
+		bytesRead += n
+		if err != nil && bytesRead < streamingPacketHeaderLen {
 			return 0, err
 		}
-		bytesRead += n
 	}
 
 	length := int(binary.BigEndian.Uint16(header))
 
-	if length > cap(buf) {
+	if length > len(buf) {
 		return length, io.ErrShortBuffer
 	}
 
 	bytesRead = 0
 	for bytesRead < length {
-		if n, err = conn.Read(buf[bytesRead:length]); err != nil {
+		n, err = conn.Read(buf[bytesRead:length])
+		bytesRead += n
+		if err != nil && bytesRead < length {
 			return 0, err
 		}
-		bytesRead += n
 	}
 
 	return bytesRead, nil
